@@ -1,7 +1,46 @@
 """C29 linter accepts documented safe schema evolutions (engine E)."""
 import copy
+import os
 
-from .. import core, linter
+from .. import core, gen, linter, schemagen
+from .c25 import LEGACY
+
+LEGACY_NEW_TYPE = "legacy.extra#0d0e0f77 fields_mask:# a:fields_mask.0?int = legacy.Extra;\n"
+LEGACY_NEW_FN = "@read legacy.getExtra#0d0e0f78 fields_mask:# id:int = legacy.Extra;\n"
+
+
+def cli_phase(ctx, pairs, verdicts, meta):
+    """the linter as a user runs it: tlgen --schema-to-compare=<old> <new>"""
+    tlgen = gen.tool(ctx, "tlgen")
+    d = os.path.join(ctx.work, "cli")
+    os.makedirs(d, exist_ok=True)
+    leg = schemagen.PRELUDE + LEGACY
+    types, fns = leg.split("---functions---")
+    cases = [("legacy-identity", leg, leg, ["identity"]),
+             ("legacy-new-type-and-function", leg, types + LEGACY_NEW_TYPE + "---functions---" + fns + LEGACY_NEW_FN, ["add_type", "add_function"]),
+             ("legacy-new-type", leg, types + LEGACY_NEW_TYPE + "---functions---" + fns, ["add_type"])]
+    picked = {}
+    for i, ((o, n), (v, _), kinds) in enumerate(zip(pairs, verdicts, meta)):
+        k = "+".join(sorted(set(kinds)))
+        if v == "ACCEPT" and k not in picked and len(picked) < (40 if ctx.tier == "thorough" else 14):
+            picked[k] = i
+            cases.append(("pair%d" % i, o, n, kinds))
+    acc = 0
+    for name, old, new, kinds in cases:
+        fo, fn = os.path.join(d, name + ".old.tl"), os.path.join(d, name + ".new.tl")
+        open(fo, "w").write(old)
+        open(fn, "w").write(new)
+        r = ctx.run([tlgen, "--schema-to-compare=" + fo, fn], cwd=d, timeout=120)
+        ctx.count()
+        if r.rc == 0 and "RESULT: New version is backward compatible" in r.text():
+            acc += 1
+            ctx.distinct("cli/" + name.rstrip("0123456789") + "/" + "+".join(sorted(set(kinds))))
+            continue
+        ctx.violation({"oracle": "linter-cli-accepts-safe", "class": "+".join(sorted(set(kinds))) or "identity", "schema": name.rstrip("0123456789")},
+                      "tlgen --schema-to-compare rejects a documented safe evolution %s (%s) that CheckBackwardCompatibility accepts or that only adds combinators: %s"
+                      % (kinds, name, r.tail(300).replace("\n", " | ")), {"old.tl": old, "new.tl": new})
+    ctx.cov.setdefault("counters", {})["cli_pairs"] = len(cases)
+    ctx.cov["counters"]["cli_accepted"] = acc
 
 
 def run(ctx):
@@ -40,10 +79,12 @@ def run(ctx):
             continue
         ctx.violation({"oracle": "linter-accepts-safe", "class": "+".join(sorted(set(kinds))) or "identity", "verdict": v},
                       "linter verdict %s for a documented safe evolution %s: %s" % (v, kinds, msg), {"old.tl": old, "new.tl": new})
+    cli_phase(ctx, pairs, verdicts, meta)
     ctx.sample({"edits": meta[1], "new_tail": pairs[1][1][-300:]})
     ctx.cov["rule"] = ("pairs (old SchemaGen schema, new = old after 1-5 documented safe edits applied on the AST, or identity): append a field guarded by an unused bit of an "
                        "existing field mask (structs, union constructors, functions), append a constructor to a union/enum or to a struct that is referenced only boxed, add a "
                        "new type, add a new function whose first argument is '#'. The real CheckBackwardCompatibility(new, old) must return nil (a panic is a failure). "
-                       "distinct_nontrivial = distinct (edit kinds, schema bucket).")
+                       "distinct_nontrivial = distinct (edit kinds, schema bucket). The command line path (tlgen --schema-to-compare=old new) is run on one accepted pair per edit-kind "
+                       "combination and on a schema with the legacy combinators the tool strips from its input (identity, plus new type / new function): exit status 0 and the line RESULT: New version is backward compatible expected (style warnings of the new schema are not verdicts; -Werror is not used because it turns them into failures).")
     ctx.require("pairs", len(pairs), n)
     ctx.require("accepted", acc, n * 8 // 10)
